@@ -1,5 +1,6 @@
 import Rbp.Proofs.Utxo
 import Rbp.Proofs.Wire
+import Rbp.Proofs.RunSpec
 /-!
 # C07 — unspentcsvdump lists exactly the unspent, address-bearing outputs of the range
 -/
@@ -59,5 +60,28 @@ theorem unknown_outpoint_not_listed (ver : UInt8) (bs : List EBlock) (k : Bytes)
   | some v =>
     obtain ⟨pre, post, he, _⟩ := (listed_iff ver bs k v).mp hv
     exact absurd rfl (h (U.Op.create k v) (by rw [he]; simp) v)
+
+/-- **whole run.**  For a stored chain (every height of the range holds a well-formed block where its record says),
+    `unspentcsvdump` exits 0 and writes one file `unspent-start-maxH.csv`: the header followed by one row per binding of the
+    map of `fold_eq_spec` / `listed_iff` over exactly the delivered blocks (txid, index, creation height, value, address);
+    the summary counts transactions, inputs and the address-bearing outputs inserted -/
+theorem unspent_run_spec (o : Run.Opts) (key : Option Bytes) (kvs : List (Bytes × Bytes)) (files : List Run.BlkFile)
+    (coin : Run.Coin) (ld : Run.Loaded) (hcoin : Run.coinOf o.coin = some coin) (hld : Run.loadIndex o kvs = .ok ld)
+    (hkey : key ≠ some []) (sz : Nat → Nat) (blk : Nat → W.Block)
+    (hs : ∀ k, o.start ≤ k → k < o.start + (ld.maxH + 1 - o.start) →
+      Run.Stored coin key (files.filterMap fun f => (Run.parseBlkIndex f.name).map fun n => (n, f)) ld.trimmed k (sz k) (blk k) ∧
+      (o.verify = true → Run.verifyBlock coin ld.trimmed (blk k).toR k = .ok ()))
+    (hne : o.start ≤ ld.maxH) (hcb : o.callback = "unspentcsvdump") :
+    let bs := (List.range' o.start (ld.maxH + 1 - o.start)).map (fun k => (⟨k, sz k, (blk k).toR⟩ : EBlock))
+    (Run.run o key kvs files).exit = 0 ∧
+    (Run.run o key kvs files).files =
+      [(s!"unspent-{o.start}-{ld.maxH}.csv", "txid;indexOut;height;value;address" :: unspentRows (utxo coin.version bs))] ∧
+    (Run.run o key kvs files).stdout = Run.totalsUnspent coin.version bs := by
+  intro bs
+  obtain ⟨h0, _, hf, ho⟩ := Run.run_stored o key kvs files coin ld hcoin hld hkey sz blk hs hne
+    (by simp [Run.callbackPanics, hcb])
+  refine ⟨h0, ?_, ?_⟩
+  · rw [hf]; simp only [Run.callbackOut, hcb]; rfl
+  · rw [ho]; simp only [Run.callbackOut, hcb]; rfl
 
 end Rbp.Props.C07
